@@ -108,6 +108,8 @@ def to_value(t) -> Value:
         return TypedValue(Perm)
     if k == "typeobj":
         return TypedValue(type)
+    if k == "baretuple":  # the bare alias typing.Tuple (any tuple), not Tuple[()]
+        return TypedValue(tuple)
     if k == "cls":
         return TypedValue(CLASSES[t[1]])
     if k == "type":
@@ -173,6 +175,10 @@ def to_typing(t):
         return Perm
     if k == "typeobj":
         return type
+    if k == "baretuple":
+        from typing import Tuple as _BareTuple
+
+        return _BareTuple
     if k == "cls":
         return CLASSES[t[1]]
     if k == "type":
@@ -251,6 +257,8 @@ def member(o, t) -> bool:
         return isinstance(o, Perm)
     if k == "typeobj":
         return isinstance(o, type)
+    if k == "baretuple":
+        return isinstance(o, tuple)
     if k == "cls":
         return isinstance(o, CLASSES[t[1]])
     if k == "type":
@@ -464,7 +472,7 @@ _ISUB = ISub(7)
 LEAVES = [
     ("int",), ("bool",), ("float",), ("complex",), ("str",), ("bytes",), ("object",), ("none",),
     ("lit", P0), ("lit", "a"), ("lit", True), ("lit_enum",), ("enum",), ("cls", "A"), ("cls", "B"), ("type", "A"), ("type", "B"),
-    ("gt", P0), ("ge", P0), ("lt", P0), ("le", P0),
+    ("gt", P0), ("ge", P0), ("lt", P0), ("le", P0), ("baretuple",), ("flag",), ("typeobj",),
 ]
 LEAVES_B = [  # the same leaves with the second payload slot (right-hand side of a pair)
     tuple(P1 if x == P0 else x for x in t) for t in LEAVES
@@ -639,7 +647,7 @@ def _compatible_kinds(tb) -> List[str]:
         return ["fset1"]
     if k in ("dict", "mapping"):
         return ["dict0", "dict_a", "dict_ab", "dict_an", "dict_a2"]
-    if k in ("tuple", "vtuple", "pvtuple"):
+    if k in ("tuple", "vtuple", "pvtuple", "baretuple"):
         return ["tuple0", "tuple1", "tuple2", "tuple_is"]
     if k == "seq":
         return ["list0", "list1", "tuple1", "tuple2", "str", "bytes1"]
